@@ -61,7 +61,17 @@ def build_harness():
     if p.returncode != 0:
         sys.stdout.write(p.stdout.decode(errors="replace")[-4000:])
         raise Infra("harness build failed (does /repo still compile with -tags verif?)")
-    return binp, dt
+    # the Minter-loop driver: the connector's main.go is copied into a generated package at every build
+    import genconn
+    try:
+        genconn.generate()
+    except Exception as e:
+        raise Infra("cannot generate the connector package from main.go: %s" % e)
+    p, dt2 = run(["go", "build", "-tags", "verif", "-o", os.path.join(WORK, "bin", "vhconn"), "./cmd/vhconn"], 900, env=GOENV, cwd=hdir)
+    if p.returncode != 0:
+        sys.stdout.write(p.stdout.decode(errors="replace")[-4000:])
+        raise Infra("connector driver build failed (does /repo/minter-connector still compile?)")
+    return binp, dt + dt2
 
 
 # ------------------------------------------------------------------------------------------- TLC
@@ -227,11 +237,38 @@ def replay(vh, scripts, workdir, name="trace", digest=False):
         for s in scripts:
             f.write(json.dumps(s) + "\n")
     tp = os.path.join(workdir, name + ".trace.ndjson")
-    cmd = [vh, "run", "-scripts", sp, "-out", tp] + (["-digest"] if digest else [])
-    p, dt = run(cmd, 1800)
-    if p.returncode != 0:
-        sys.stdout.write(p.stdout.decode(errors="replace")[-3000:])
-        raise Infra("harness run failed")
+    loop = [s for s in scripts if s.get("family") == "minter"]
+    rest = [s for s in scripts if s.get("family") != "minter"]
+    dt = 0.0
+    parts = []
+    if rest or not loop:
+        with open(sp, "w") as f:
+            for s in rest:
+                f.write(json.dumps(s) + "\n")
+        cmd = [vh, "run", "-scripts", sp, "-out", tp + ".hub"] + (["-digest"] if digest else [])
+        p, dt = run(cmd, 1800)
+        if p.returncode != 0:
+            sys.stdout.write(p.stdout.decode(errors="replace")[-3000:])
+            raise Infra("harness run failed")
+        parts.append(tp + ".hub")
+    if loop:
+        # real hub + real connector functions + Minter chain model
+        lp = os.path.join(workdir, name + ".loop.scripts.ndjson")
+        with open(lp, "w") as f:
+            for s in loop:
+                f.write(json.dumps(s) + "\n")
+        cmd = [os.path.join(os.path.dirname(vh), "vhconn"), "-config", os.path.join(ROOT, "scripts", "connector.toml"), "run", "-scripts", lp, "-out", tp + ".loop"]
+        p, dt2 = run(cmd, 1800)
+        dt += dt2
+        if p.returncode != 0:
+            sys.stdout.write(p.stdout.decode(errors="replace")[-3000:])
+            raise Infra("connector driver run failed")
+        parts.append(tp + ".loop")
+    with open(tp, "w") as out:
+        for part in parts:
+            with open(part) as f:
+                shutil.copyfileobj(f, out)
+            os.remove(part)
     return tp, dt
 
 
@@ -299,10 +336,25 @@ EVM_MC = dict(module="MC_Evm.tla", cfg="MC_Evm.cfg", timeout=1500, quick={"MaxLe
 EVM_SIM = dict(module="MC_Evm.tla", cfg="MC_EvmSim.cfg", family="evm", num=(40, 500), depth=300, timeout=3000,
                quick={"MaxLen": "90"}, thorough={"MaxLen": "120"}, script_cfg="cfg_evm.json", script_extra={"evm": "ethereum"})
 
+MINTER_MC = dict(module="MC_Minter.tla", cfg="MC_Minter.cfg", timeout=1500, quick={"MaxLen": "5"}, thorough={"MaxLen": "7"})
+MINTER_SIM = dict(module="MC_Minter.tla", cfg="MC_MinterSim.cfg", family="minter", num=(10, 150), depth=400, timeout=6000,
+                  quick={"MaxLen": "90"}, thorough={"MaxLen": "120"}, script_cfg="cfg_minter.json")
+
+# the Minter loop as a plan of its own (used by C20 next to its vector checks)
+MINTER_LOOP = dict(mc=[MINTER_MC], sim=[MINTER_SIM], static=["minter*.ndjson"],
+                   watch=["C20:", "conf:resync", "conf:relay"],
+                   need={"ConnScan/ok": 20, "ConnRestart/ok": 10, "Claim/ok": 20, "MntDeposit/ok": 10})
+
+# v3 bonded without a key for the chain
+EVM2_MC = dict(module="MC_Evm.tla", cfg="MC_Evm2.cfg", timeout=1500, quick={"MaxLen": "4"}, thorough={"MaxLen": "6"})
+EVM2_SIM = dict(module="MC_Evm.tla", cfg="MC_EvmSim2.cfg", family="evm", num=(12, 200), depth=300, timeout=3000,
+                quick={"MaxLen": "90"}, thorough={"MaxLen": "120"}, script_cfg="cfg_evm2.json", script_extra={"evm": "ethereum"})
+
 PROPS = {
-    "C08": dict(mc=[EVM_MC], sim=[EVM_SIM], static=["evm*.ndjson"],
-                watch=["C08:", "C07:CheckpointAgrees", "C13:WithdrawnBatchExecuted", "conf:ss", "conf:sigs", "conf:loss", "conf:lon"],
-                need={"EvmUpdateValset/ok": 3, "EvmUpdateValset/revert": 3, "EvmSubmitBatch/ok": 2, "EvmSubmitBatch/revert": 2, "EvmDeposit/ok": 5, "Claim/ok": 20}),
+    "C08": dict(mc=[EVM_MC, EVM2_MC, MINTER_MC], sim=[EVM_SIM, EVM2_SIM, MINTER_SIM], static=["evm*.ndjson", "minter*.ndjson"],
+                watch=["C08:", "C07:CheckpointAgrees", "C13:WithdrawnBatchExecuted", "conf:ss", "conf:sigs", "conf:loss", "conf:lon", "conf:relay"],
+                need={"EvmUpdateValset/ok": 3, "EvmUpdateValset/revert": 3, "EvmSubmitBatch/ok": 2, "EvmSubmitBatch/revert": 2, "EvmDeposit/ok": 5, "Claim/ok": 20,
+                      "ConnValsets/ok": 10, "ConnBatches/ok": 3, "ConnScan/ok": 10}),
     "C18": dict(mc=[ORACLE_MC], sim=[ORACLE_SIM], static=["oracle*.ndjson"], trace=("TraceOracle.tla", "TraceOracle.cfg"),
                 watch=["C18:", "conf:or"],
                 need={"Price/ok": 10, "Price/err": 2, "Holders/ok": 5, "PricesChanged": 2, "HoldersChanged": 1, "AttWithSeveralVoters": 5}),
@@ -318,8 +370,8 @@ PROPS = {
     "C17": dict(mc=[VALSET_MC], enum=[REGISTRY_ENUM], sim=[VALSET_SIM], static=["valset*.ndjson"],
                 watch=["C17:", "conf:keys"],
                 need={"SetKeys/ok": 3, "SetKeys/err": 3}),
-    "C01": dict(mc=[ECON_MC], sim=[ECON_SIM, ECON2_SIM, EVM_SIM], static=["econ*.ndjson"],
-                watch=["C01:", "conf:bal", "conf:sup"],
+    "C01": dict(mc=[ECON_MC], sim=[ECON_SIM, ECON2_SIM, EVM_SIM, MINTER_SIM], static=["econ*.ndjson", "minter*.ndjson"],
+                watch=["C01:", "conf:bal", "conf:sup", "C08:MinterTxMatches"],
                 need={"ExtDeposit/ok": 3, "Claim/ok": 6, "End/ok": 3, "Send/ok": 5}),
     "C02": dict(mc=[ATTEST_MC], sim=[ATTEST_SIM, ECON_SIM], static=["attest*.ndjson"],
                 watch=["C02:", "conf:votes", "conf:lon"],
@@ -364,11 +416,22 @@ def watched(plan, check):
 
 
 def check_hub_property(prop, tier, seed, replay_file=None):
-    plan = PROPS[prop]
     t0 = time.time()
     workdir = os.path.join(WORK, prop)
     shutil.rmtree(workdir, ignore_errors=True)
     os.makedirs(workdir)
+    rc, coverage, nfresh = hub_run(prop, PROPS[prop], tier, seed, replay_file, workdir)
+    write_evidence(prop, tier, seed, coverage, time.time() - t0, nfresh,
+                   ["the Go harness drives the real app.Mhub2 through ABCI with really signed transactions; the projection reads state through exported keeper getters and raw store prefixes",
+                    "amounts in replayed behaviours stay below 2^30 (TLC integers are 32 bit)",
+                    "external chains are the specification's abstract event logs in this check, except the evm family (real Hub2 bytecode) and the minter family "
+                    "(real connector functions against an executable model of the Minter multisig)"])
+    return rc
+
+
+def hub_run(prop, plan, tier, seed, replay_file, workdir):
+    """design checks + generated / committed behaviours replayed on the real code + trace validation for one plan;
+    returns (exit code, coverage record, number of fresh violations)"""
     dev = current_dev()
     vh, bt = build_harness()
     log("[%s] harness built in %.0fs; deviation switches (known findings) = %s" % (prop, bt, dev))
@@ -453,7 +516,7 @@ def check_hub_property(prop, tier, seed, replay_file=None):
         byname = collections.Counter((v[2], v[3]) for v in fresh)
         for (c, d), n in byname.most_common(8):
             log("  failed check %s [%s] on %d steps" % (c, d, n))
-        log("  first: behaviour %s step %d: %s" % (first[0], first[1], json.dumps(s["acts"][first[1] - 1]) if s and first[1] <= len(s["acts"]) else "?"))
+        log("  first: behaviour %s step %d: %s" % (first[0], first[1], json.dumps(s["acts"][first[1] - 1]) if s and 1 <= first[1] <= len(s["acts"]) else "?"))
         log("VIOLATION property=%s replay=%s" % (prop, path))
         rc = 1
 
@@ -479,11 +542,7 @@ def check_hub_property(prop, tier, seed, replay_file=None):
         deviation_switches=dev,
         exhaustive=False,
     )
-    write_evidence(prop, tier, seed, coverage, time.time() - t0, len(fresh),
-                   ["the Go harness drives the real app.Mhub2 through ABCI with really signed transactions; the projection reads state through exported keeper getters and raw store prefixes",
-                    "amounts in replayed behaviours stay below 2^30 (TLC integers are 32 bit)",
-                    "external chains are the specification's abstract event logs in this check"])
-    return rc
+    return rc, coverage, len(fresh)
 
 
 # ------------------------------------------------------------------------------------------- C14 claim identifiers
@@ -593,7 +652,9 @@ def check_c20(prop, tier, seed, replay_file=None):
     log("[%s] Connector.tla: %d distinct states, %d transitions, CursorConsistent holds over all histories / restart points / acknowledged nonces (%.0fs)" % (prop, dist, gen, dt))
     vectors = json.load(open(os.path.join(outdir, "vectors.json")))
     cases = json.load(open(os.path.join(outdir, "commands.json")))
-    if replay_file:
+    if replay_file and replay_file.endswith(".ndjson"):
+        vectors, cases = vectors[:50], cases[:50]      # a replay of a loop behaviour: the vector part is only smoke-tested
+    elif replay_file:
         rp = json.load(open(replay_file))
         vectors = rp.get("vectors", [])
         cases = rp.get("commands", [])
@@ -656,7 +717,16 @@ def check_c20(prop, tier, seed, replay_file=None):
             log("  %s [%s]: %s -> %s" % (k, d, json.dumps(i[0])[:200], json.dumps(i[1])[:120]))
         log("VIOLATION property=%s replay=%s" % (prop, path))
         rc = 1
+    # the whole loop: real relayMinterEvents / restart of three connectors against the real hub and the Minter chain model
+    loop_cov, lfresh = None, 0
+    if not replay_file or replay_file.endswith(".ndjson"):
+        lw = os.path.join(workdir, "loop")
+        os.makedirs(lw, exist_ok=True)
+        lrc, loop_cov, lfresh = hub_run(prop, MINTER_LOOP, tier, seed, replay_file if replay_file and replay_file.endswith(".ndjson") else None, lw)
+        if lrc:
+            rc = 1
     coverage = dict(states=dist, transitions=gen, traces_validated_against_impl=len(vectors) + len(cases),
+                    minter_loop=loop_cov,
                     samples=[vectors[0], vectors[len(vectors) // 2], cases[0]], resync_vectors=len(vectors), resync_vectors_stopping_before_head=stops,
                     command_cases=len(cases), command_cases_valid=sum(1 for c in cases if c["want"]),
                     constants=subst, exhaustive=(tier != "quick" or len(vectors) < 8000),
@@ -664,9 +734,9 @@ def check_c20(prop, tier, seed, replay_file=None):
                     rule="every block history of the bounded model x every consistent cursor x every head x every acknowledged nonce is run through the real "
                          "LoadStatus + GetLatestMinterBlockAndNonce against a scripted Minter API (loopback HTTP) and the status file compared with the specification's Resync; "
                          "every command class x fee x amount through the real ValidateAndComplete")
-    write_evidence(prop, tier, seed, coverage, time.time() - t0, len(fresh),
-                   ["relayMinterEvents / relayBatches / relayValsets live in package main of the connector and are modelled, not bound",
-                    "the Minter node API is a scripted fake; the valset nonce (payload value) is not compared"])
+    write_evidence(prop, tier, seed, coverage, time.time() - t0, len(fresh) + lfresh,
+                   ["relayMinterEvents / relayBatches / relayValsets are bound through a generated copy of main.go (package clause changed, nothing else)",
+                    "the Minter node is an executable model (harness/mnt): block API, multisig acceptance rule nonce = count + 1 and weights >= threshold"])
     return rc
 
 
@@ -762,12 +832,12 @@ def check_c15(prop, tier, seed, replay_file=None):
     if replay_file:
         scripts = [json.loads(l) for l in open(replay_file) if l.strip()]
     else:
-        for spec in (ECON_SIM, FEES_SIM, ORACLE_SIM, VALSET_SIM):
+        for spec in (ECON_SIM, FEES_SIM, ORACLE_SIM, VALSET_SIM, ATTEST_SIM):
             sp = dict(spec)
             sp["num"] = (10, 120)
             s, st = simulate_scripts(sp, workdir, tier, dev, seed)
             scripts += s
-        scripts += load_static(["econ_basic.ndjson", "valset_rereg.ndjson", "fees*.ndjson"])
+        scripts += load_static(["econ_basic.ndjson", "valset_rereg.ndjson", "fees*.ndjson", "genesis*.ndjson"])
     sp = os.path.join(workdir, "scripts.ndjson")
     with open(sp, "w") as f:
         for sc in scripts:
